@@ -53,6 +53,45 @@ func (f *fakeUnserializer) Unserialize(_ io.Reader, uo *native.UnserializeOption
 	return sbom.NewDocument(), nil
 }
 
+// recStore is a storage backend that records what reaches it.
+type recStore struct {
+	name      string
+	stores    int
+	retrieves int
+	lastStore *storage.StoreOptions
+	lastRetr  *storage.RetrieveOptions
+	lastID    string
+}
+
+func (r *recStore) Store(d *sbom.Document, o *storage.StoreOptions) error {
+	r.stores++
+	r.lastStore, r.lastID = o, d.GetMetadata().GetId()
+	return nil
+}
+
+func (r *recStore) Retrieve(id string, o *storage.RetrieveOptions) (*sbom.Document, error) {
+	r.retrieves++
+	r.lastRetr, r.lastID = o, id
+	d := sbom.NewDocument()
+	d.Metadata.Id = id
+	return d, nil
+}
+
+// recSniffer records detections and answers with a fixed format.
+type recSniffer struct {
+	name  string
+	calls int
+}
+
+func (r *recSniffer) SniffReader(io.ReadSeeker) (formats.Format, error) {
+	r.calls++
+	return formats.CDX15JSON, nil
+}
+func (r *recSniffer) SniffFile(string) (formats.Format, error) {
+	r.calls++
+	return formats.CDX15JSON, nil
+}
+
 var (
 	fakeSerKey   = fmt.Sprintf("%T", &fakeSerializer{})
 	fakeUnserKey = fmt.Sprintf("%T", &fakeUnserializer{})
@@ -65,12 +104,15 @@ type writerModel struct {
 	serialize *native.SerializeOptions // nil = library default
 	noClobber bool
 	fo        map[string]interface{}
+	store     *recStore // nil = the library's filesystem backend
 }
 
 type readerModel struct {
 	unserialize *native.UnserializeOptions // nil = library default
 	retrieve    *storage.RetrieveOptions
 	fo          map[string]interface{}
+	store       *recStore   // nil = the library's filesystem backend
+	sniffer     *recSniffer // nil = the library's detection
 }
 
 const minimalCDX15 = `{"bomFormat":"CycloneDX","specVersion":"1.5","version":1,"components":[{"bom-ref":"a","type":"library","name":"a"}]}`
@@ -150,6 +192,12 @@ func c18Property(t *rapid.T) {
 					t.Fatalf("after %s: writer %d format options[%s] = %v, its own configuration says %v%s", after, i, k, got, m.fo[k], history())
 				}
 			}
+			if w.Storage == nil || (m.store != nil && w.Storage != storage.StoreRetriever(m.store)) {
+				t.Fatalf("after %s: writer %d storage backend is %T, not the one its constructor was given%s", after, i, w.Storage, history())
+			}
+			if _, isRec := w.Storage.(*recStore); isRec && m.store == nil {
+				t.Fatalf("after %s: writer %d was built without a backend option but holds the backend given to another instance%s", after, i, history())
+			}
 		}
 		// no two live instances share an options object (or a non-empty option group) they did not both receive
 		for i := range writers {
@@ -182,6 +230,12 @@ func c18Property(t *rapid.T) {
 			if o.RetrieveOptions != m.retrieve {
 				t.Fatalf("after %s: reader %d retrieve options are not its own%s", after, i, history())
 			}
+			if r.Storage == nil || (m.store != nil && r.Storage != storage.StoreRetriever(m.store)) {
+				t.Fatalf("after %s: reader %d storage backend is %T, not the one its constructor was given%s", after, i, r.Storage, history())
+			}
+			if _, isRec := r.Storage.(*recStore); isRec && m.store == nil {
+				t.Fatalf("after %s: reader %d was built without a backend option but holds the backend given to another instance%s", after, i, history())
+			}
 			for _, k := range foKeys {
 				if got := o.GetFormatOptions(k); got != m.fo[k] {
 					t.Fatalf("after %s: reader %d format options[%s] = %v, its own configuration says %v%s", after, i, k, got, m.fo[k], history())
@@ -198,35 +252,43 @@ func c18Property(t *rapid.T) {
 			m := &writerModel{indent: 4, fo: map[string]interface{}{}}
 			var opts []writer.WriterOption
 			var desc []string
-			if rapid.Bool().Draw(t, "format?") {
+			// a quarter of the constructions take no option at all (the documented defaults must come back)
+			plain := rapid.IntRange(0, 3).Draw(t, "plain") == 0
+			yes := func(label string) bool { return !plain && rapid.Bool().Draw(t, label) }
+			if yes("format?") {
 				m.format = rapid.SampledFrom([]formats.Format{fakeFormat, formats.CDX14JSON, formats.SPDX23JSON, formats.CDX15JSON}).Draw(t, "format")
 				opts = append(opts, writer.WithFormat(m.format))
 				desc = append(desc, "WithFormat("+string(m.format)+")")
 			}
-			if rapid.Bool().Draw(t, "render?") {
+			if yes("render?") {
 				m.indent = rapid.IntRange(0, 9).Draw(t, "indent")
 				opts = append(opts, writer.WithRenderOptions(&native.RenderOptions{Indent: m.indent}))
 				desc = append(desc, fmt.Sprintf("WithRenderOptions(indent %d)", m.indent))
 			}
-			if rapid.Bool().Draw(t, "serialize?") {
+			if yes("serialize?") {
 				m.serialize = &native.SerializeOptions{}
 				opts = append(opts, writer.WithSerializeOptions(m.serialize))
 				desc = append(desc, "WithSerializeOptions")
 			}
-			if rapid.Bool().Draw(t, "fo?") {
+			if yes("fo?") {
 				k := rapid.SampledFrom(foKeys).Draw(t, "fokey")
 				v := fmt.Sprintf("w%d-%s", len(writers), rapid.SampledFrom([]string{"x", "y"}).Draw(t, "foval"))
 				m.fo[k] = v
 				opts = append(opts, writer.WithFormatOptions(k, v))
 				desc = append(desc, fmt.Sprintf("WithFormatOptions(%s,%s)", k, v))
 			}
-			if rapid.Bool().Draw(t, "store?") {
+			if yes("store?") {
 				m.noClobber = rapid.Bool().Draw(t, "noclobber")
 				opts = append(opts, writer.WithStoreOptions(&storage.StoreOptions{NoClobber: m.noClobber}))
 				desc = append(desc, fmt.Sprintf("WithStoreOptions(NoClobber=%v)", m.noClobber))
 			}
-			if rapid.IntRange(0, 5).Draw(t, "nilopts") == 0 {
-				opts = append(opts, writer.WithRenderOptions(nil), writer.WithSerializeOptions(nil), writer.WithStoreOptions(nil))
+			if yes("backend?") {
+				m.store = &recStore{name: fmt.Sprintf("backend-of-writer-%d", len(writers))}
+				opts = append(opts, writer.WithStoreRetriever(m.store))
+				desc = append(desc, "WithStoreRetriever("+m.store.name+")")
+			}
+			if !plain && rapid.IntRange(0, 5).Draw(t, "nilopts") == 0 {
+				opts = append(opts, writer.WithRenderOptions(nil), writer.WithSerializeOptions(nil), writer.WithStoreOptions(nil), writer.WithStoreRetriever(nil))
 				desc = append(desc, "nil options")
 			}
 			writers = append(writers, writer.New(opts...))
@@ -246,22 +308,38 @@ func c18Property(t *rapid.T) {
 			m := &readerModel{fo: map[string]interface{}{}}
 			var opts []reader.ReaderOption
 			var desc []string
-			if rapid.Bool().Draw(t, "unserialize?") {
+			plain := rapid.IntRange(0, 3).Draw(t, "plain") == 0
+			yes := func(label string) bool { return !plain && rapid.Bool().Draw(t, label) }
+			if yes("unserialize?") {
 				m.unserialize = &native.UnserializeOptions{}
 				opts = append(opts, reader.WithUnserializeOptions(m.unserialize))
 				desc = append(desc, "WithUnserializeOptions")
 			}
-			if rapid.Bool().Draw(t, "retrieve?") {
+			if yes("retrieve?") {
 				m.retrieve = &storage.RetrieveOptions{}
 				opts = append(opts, reader.WithRetrieveOptions(m.retrieve))
 				desc = append(desc, "WithRetrieveOptions")
 			}
-			if rapid.Bool().Draw(t, "fo?") {
+			if yes("fo?") {
 				k := rapid.SampledFrom(foKeys).Draw(t, "fokey")
 				v := fmt.Sprintf("r%d-%s", len(readers), rapid.SampledFrom([]string{"x", "y"}).Draw(t, "foval"))
 				m.fo[k] = v
 				opts = append(opts, reader.WithFormatOptions(k, v))
 				desc = append(desc, fmt.Sprintf("WithFormatOptions(%s,%s)", k, v))
+			}
+			if yes("backend?") {
+				m.store = &recStore{name: fmt.Sprintf("backend-of-reader-%d", len(readers))}
+				opts = append(opts, reader.WithStoreRetriever(m.store))
+				desc = append(desc, "WithStoreRetriever("+m.store.name+")")
+			}
+			if yes("sniffer?") {
+				m.sniffer = &recSniffer{name: fmt.Sprintf("sniffer-of-reader-%d", len(readers))}
+				opts = append(opts, reader.WithSniffer(m.sniffer))
+				desc = append(desc, "WithSniffer("+m.sniffer.name+")")
+			}
+			if !plain && rapid.IntRange(0, 5).Draw(t, "nilopts") == 0 {
+				opts = append(opts, reader.WithUnserializeOptions(nil), reader.WithRetrieveOptions(nil), reader.WithStoreRetriever(nil), reader.WithSniffer(nil))
+				desc = append(desc, "nil options")
 			}
 			readers = append(readers, reader.New(opts...))
 			rmodels = append(rmodels, m)
@@ -439,11 +517,28 @@ func c18Property(t *rapid.T) {
 			i := rapid.IntRange(0, len(readers)-1).Draw(t, "r")
 			m := rmodels[i]
 			calls := fu.calls
+			sniffs := map[*recSniffer]int{}
+			for _, o := range rmodels {
+				if o.sniffer != nil {
+					sniffs[o.sniffer] = o.sniffer.calls
+				}
+			}
 			_, err := readers[i].ParseStream(strings.NewReader(minimalCDX15))
 			logf("reader %d.ParseStream -> err=%v", i, err)
 			if err != nil || fu.calls != calls+1 {
 				t.Fatalf("reader %d: plain ParseStream did not reach the registered driver (err=%v)%s", i, err, history())
 			}
+			// detection goes through the reader's own sniffer, never through the one given to another reader
+			for sn, n := range sniffs {
+				want := n
+				if sn == m.sniffer {
+					want++
+				}
+				if sn.calls != want {
+					t.Fatalf("reader %d.ParseStream: %s saw %d detections, expected %d (each reader detects with the sniffer its own constructor was given)%s", i, sn.name, sn.calls-n, want-n, history())
+				}
+			}
+			hx.ClassIf(m.sniffer != nil, "parse_through_instance_sniffer")
 			if fu.formatOpts != m.fo[fakeUnserKey] {
 				t.Fatalf("reader %d: the driver received format options %v, the reader's own are %v%s", i, fu.formatOpts, m.fo[fakeUnserKey], history())
 			}
@@ -482,6 +577,112 @@ func c18Property(t *rapid.T) {
 			if (callFO != nil && fu.formatOpts != callFO) || (callFO == nil && fu.formatOpts != nil && fu.formatOpts != rmodels[i].fo[fakeUnserKey]) {
 				t.Fatalf("per-call format options %v did not decide the driver's options for this call (driver got %v)%s", callFO, fu.formatOpts, history())
 			}
+			checkAll(hist[len(hist)-1])
+		},
+		"store": func(t *rapid.T) {
+			// only writers with a recording backend (the filesystem backend would write to the working directory)
+			var cands []int
+			for i, m := range wmodels {
+				if m.store != nil {
+					cands = append(cands, i)
+				}
+			}
+			if len(cands) == 0 {
+				t.Skip("no writer with a recording backend")
+			}
+			i := cands[rapid.IntRange(0, len(cands)-1).Draw(t, "w")]
+			m := wmodels[i]
+			before := map[*recStore]int{}
+			for _, o := range wmodels {
+				if o.store != nil {
+					before[o.store] = o.store.stores
+				}
+			}
+			withOpts := rapid.Bool().Draw(t, "withOptions")
+			var callSO *storage.StoreOptions
+			var err error
+			if withOpts {
+				callSO = &storage.StoreOptions{NoClobber: rapid.Bool().Draw(t, "callNoClobber")}
+				o := &writer.Options{StoreOptions: callSO}
+				err = writers[i].StoreWithOptions(doc, o)
+				if o.StoreOptions != callSO || o.Format != "" || o.RenderOptions != nil || o.SerializeOptions != nil {
+					t.Fatalf("writer %d.StoreWithOptions changed the option set it was given%s", i, history())
+				}
+			} else {
+				err = writers[i].Store(doc)
+			}
+			logf("writer %d.Store(withOptions=%v) -> err=%v", i, withOpts, err)
+			if err != nil {
+				t.Fatalf("writer %d: store through its recording backend failed: %v%s", i, err, history())
+			}
+			for st, n := range before {
+				want := n
+				if st == m.store {
+					want++
+				}
+				if st.stores != want {
+					t.Fatalf("writer %d stored a document: backend %s saw %d calls, expected %d (each writer uses the backend its own constructor was given)%s", i, st.name, st.stores-n, want-n, history())
+				}
+			}
+			if withOpts {
+				if m.store.lastStore != callSO {
+					t.Fatalf("writer %d.StoreWithOptions: the backend did not receive the store options given to this call%s", i, history())
+				}
+			} else if got := m.store.lastStore; got != nil && got.NoClobber != m.noClobber && got.NoClobber {
+				// without per-call options the backend receives the library defaults or the instance's own options
+				t.Fatalf("writer %d.Store: the backend received NoClobber=%v, which is neither the library default nor this writer's own (%v)%s", i, got.NoClobber, m.noClobber, history())
+			}
+			hx.Class("store_through_instance_backend")
+			checkAll(hist[len(hist)-1])
+		},
+		"retrieve": func(t *rapid.T) {
+			var cands []int
+			for i, m := range rmodels {
+				if m.store != nil {
+					cands = append(cands, i)
+				}
+			}
+			if len(cands) == 0 {
+				t.Skip("no reader with a recording backend")
+			}
+			i := cands[rapid.IntRange(0, len(cands)-1).Draw(t, "r")]
+			m := rmodels[i]
+			before := map[*recStore]int{}
+			for _, o := range rmodels {
+				if o.store != nil {
+					before[o.store] = o.store.retrieves
+				}
+			}
+			withOpts := rapid.Bool().Draw(t, "withOptions")
+			var callRO *storage.RetrieveOptions
+			var d *sbom.Document
+			var err error
+			if withOpts {
+				callRO = &storage.RetrieveOptions{}
+				d, err = readers[i].RetrieveWithOptions("urn:x", &reader.Options{RetrieveOptions: callRO})
+			} else {
+				d, err = readers[i].Retrieve("urn:x")
+			}
+			logf("reader %d.Retrieve(withOptions=%v) -> err=%v", i, withOpts, err)
+			if err != nil || d.GetMetadata().GetId() != "urn:x" {
+				t.Fatalf("reader %d: retrieve through its recording backend failed (err=%v)%s", i, err, history())
+			}
+			for st, n := range before {
+				want := n
+				if st == m.store {
+					want++
+				}
+				if st.retrieves != want {
+					t.Fatalf("reader %d retrieved a document: backend %s saw %d calls, expected %d%s", i, st.name, st.retrieves-n, want-n, history())
+				}
+			}
+			if withOpts && m.store.lastRetr != callRO {
+				t.Fatalf("reader %d.RetrieveWithOptions: the backend did not receive the retrieve options given to this call%s", i, history())
+			}
+			if !withOpts && m.store.lastRetr != nil && m.store.lastRetr != m.retrieve {
+				t.Fatalf("reader %d.Retrieve: the backend received retrieve options that are neither the library default (none) nor this reader's own%s", i, history())
+			}
+			hx.Class("retrieve_through_instance_backend")
 			checkAll(hist[len(hist)-1])
 		},
 		"": func(t *rapid.T) { checkAll("a step") },
